@@ -3,6 +3,7 @@
 Translation validation of the source (constant folding + shape extraction, never running brine) against the
 frozen reference sa/ref/wire_5x.json."""
 import ast
+from .. import brine_model as _B2
 import json
 import os
 import struct
@@ -154,7 +155,7 @@ def run(ctx, rep):
                     if first[0] == "imm":
                         try:
                             from .. import brine_model as _B
-                            got = _B.imm_byte(ctx, first, val, A.params(fn.node)[0])
+                            got = _B.imm_byte(ctx, first, val, _B2.obj_param(fn.node))
                         except LookupError:
                             got = ("lookup fails",)
                     else:
